@@ -497,6 +497,14 @@ def run_composed(spec, res):
         off = add_offline_devices(rng2, ss)
         desc = off + desc
         res.count("offline_dynamic_devices_on_live_static_ones", len(off))
+    if rng2.random() < 0.4:
+        # documented load options: shares of constant power / current / impedance in the time-domain run (each triple sums to 1)
+        wp = [(1.0, 0.0, 0.0), (0.0, 1.0, 0.0), (0.2, 0.5, 0.3), (0.5, 0.25, 0.25)][int(rng2.integers(0, 4))]
+        wq = [(1.0, 0.0, 0.0), (0.0, 1.0, 0.0), (0.2, 0.5, 0.3), (0.25, 0.5, 0.25)][int(rng2.integers(0, 4))]
+        ss.PQ.config.p2p, ss.PQ.config.p2i, ss.PQ.config.p2z = wp
+        ss.PQ.config.q2q, ss.PQ.config.q2i, ss.PQ.config.q2z = wq
+        desc = ["PQ weights p%s q%s" % (wp, wq)] + desc
+        res.count("compositions_with_load_weights")
     if spec["index"] % 4 != 3:
         res.count("limiter_bounds_opened", open_limits(ss))
         desc = ["limits opened"] + desc
